@@ -22,6 +22,8 @@ def alphabet(acceptor, max_len=16384):
         # pydicom's lenient one
         ('data_part', ('seg', pd.fragments(pd.mk_message('echo_rq', 2), 1, 44)[0].encode())),
         ('frame_part', ('seg', pd.mk_rel_rq().encode()[:7])),      # an incomplete PDU (part of a frame)
+        # a well-framed P-DATA-TF that cannot be reassembled: a PDV whose message control header is not 0..3
+        ('data_bad', ('seg', b'\x04\x00\x00\x00\x00\x0a\x00\x00\x00\x06\x01\x07abcd')),
         ('relrq', ('seg', pd.mk_rel_rq().encode())), ('relrp', ('seg', pd.mk_rel_rp().encode())),
         ('abort', ('seg', pd.mk_abort(2, 0).encode())), ('unknown', ('seg', b'\x09\x00\x00\x00\x00\x01z')),
         ('close', ('close',)), ('expire', ('tick', 11)), ('tick', ('tick', 3)), ('idle', ('idle',)),
@@ -144,7 +146,7 @@ def main(tier, seed, prop='C05'):
     cov['evaluations'] = len(obs)
     cov['distinct_nontrivial'] = len(set(tuple(n) for n, _a, _o, r in obs if len(r['wire']) + len(r['given']) >= 2))
     cov['rule'] = ('scenario corpus (both roles, first segment waiting or not) + exhaustive histories to depth %d from each of 14 base states (Sta1..Sta13, both roles) over '
-                   '{7 PDU types, complete/partial P-DATA, unknown type, close, ARTIM expiry, tick, idle, legal user '
+                   '{7 PDU types, complete / partial / unusable P-DATA, unknown type, close, ARTIM expiry, tick, idle, legal user '
                    'primitives} + timed histories around the ARTIM deadline + seeded random walks; non-trivial = at least two wire/indication outputs' % depth)
     cov['distribution'] = dict(final_states=dict((str(k), sum(1 for o in obs if o[3]['final']['st'] == k)) for k in range(1, 14)),
                                outcomes=dict((k, sum(1 for o in obs if o[3]['outcome'] == k)) for k in pd.OUTCOME))
